@@ -167,7 +167,7 @@ public:
     void        pushBacktrackPoint ( );
     void        popBacktrackPoint  ( );
     void        reset              ( );
-    inline void restoreOK          ( )       { ok = true; conflict_frame = 0; }
+    void        restoreOK          ( );
     inline bool isOK               ( ) const { return ok; } // FALSE means solver is in a conflicting state
     inline int  getConflictFrame   ( ) const { assert(not isOK()); return conflict_frame; }
 
